@@ -19,6 +19,7 @@ type PropSpec struct {
 	Level       string   `json:"level"` // proof | other
 	Functions   []string `json:"functions"`
 	Lemmas      []string `json:"lemmas"`
+	Load        []string `json:"load"` // extra package patterns whose SOURCE is loaded (dependency functions verified, not assumed)
 	Bounded     []BoundedSpec `json:"bounded"` // bounded stand-ins (executable harness injected by overlay); never counted as proved
 	Assumptions []string `json:"assumptions"`  // property-level assumptions (stated)
 	NotCovered  []string `json:"not_covered"`  // clauses of the property this check does not decide
@@ -223,7 +224,7 @@ func cmdCheck(args []string) {
 	readJSON(filepath.Join(*verif, "known_findings.json"), &known)
 
 	V := newVerifier(*repo, filepath.Join(*verif, "stdlib"))
-	if err := V.load([]string{"./..."}); err != nil {
+	if err := V.load(append([]string{"./..."}, ps.Load...)); err != nil {
 		fatal2("cannot load %s: %v", *repo, err)
 	}
 	loadS := time.Since(t0).Seconds()
@@ -327,6 +328,7 @@ func cmdCheck(args []string) {
 	V.discharge(all, SolveOpts{TimeoutS: timeout, TwoSolver: two, Workdir: wd, Workers: 16})
 	solveS := time.Since(t1).Seconds()
 
+	groupVacuity(all)
 	// classify
 	discharged := 0
 	bySolver := map[string]int{}
